@@ -7,9 +7,10 @@ git diff -- sweetpea > "$OUT/patch.diff"
 cp demo.py "$OUT/demo.py"; cp NOTES.md "$OUT/NOTES.md" 2>/dev/null
 echo "patch lines: $(grep -c '^[+-][^+-]' $OUT/patch.diff)  files: $(git diff --stat -- sweetpea | tail -1)"
 PYTHONPATH=$WT timeout 300 /venv/bin/python demo.py > /tmp/demo_with.$$ 2>&1; RC1=$?
-git stash -q
+# (no git stash: the stash is shared between worktrees and races with other users of the repository)
+git apply -R "$OUT/patch.diff"
 PYTHONPATH=$WT timeout 300 /venv/bin/python demo.py > /tmp/demo_without.$$ 2>&1; RC0=$?
-git stash pop -q
+git apply "$OUT/patch.diff"
 echo "demo rc with change: $RC1 ; without: $RC0"; tail -3 /tmp/demo_with.$$ | cut -c1-300
 TESTS=$(PYTHONPATH=$WT /venv/bin/python -m pytest -q -p no:cacheprovider -n 6 --timeout=900 2>&1 | tail -1)
 echo "tests with change: $TESTS"
